@@ -164,16 +164,42 @@ pub fn run_batch<S: Scenario>(sc: &S, cfg: &RunCfg) -> BatchStats {
     let merged = Mutex::new(BatchStats::default());
     let recheck_every = (total / 64).max(1);
 
+    // watchdog: a check never hangs. A run that takes longer than the limit of wall-clock time is a
+    // mistake in a harness (every scenario bounds its own virtual time); say which one and stop.
+    let limit_s: u64 = std::env::var("VERIF_RUN_WALL_LIMIT_S").ok().and_then(|v| v.parse().ok()).unwrap_or(600);
+    let running: Vec<Mutex<Option<(u64, u64, Instant)>>> = (0..cfg.threads.max(1)).map(|_| Mutex::new(None)).collect();
+    let done = std::sync::atomic::AtomicBool::new(false);
+    let engine = sc.engine();
+
     std::thread::scope(|scope| {
-        for _ in 0..cfg.threads.max(1) {
-            scope.spawn(|| {
+        scope.spawn(|| {
+            while !done.load(Ordering::Relaxed) {
+                std::thread::sleep(std::time::Duration::from_millis(500));
+                for slot in &running {
+                    if let Some((i, seed, t)) = *slot.lock().unwrap() {
+                        if t.elapsed().as_secs() > limit_s {
+                            println!("HARNESS-ERROR: engine {} run {} seed {} has been running for more than {} s of wall-clock time; giving up", engine, i, seed, limit_s);
+                            std::process::exit(2);
+                        }
+                    }
+                }
+            }
+        });
+        let workers: Vec<_> = (0..cfg.threads.max(1))
+            .map(|wi| {
+                let running = &running;
+                let next = &next;
+                let merged = &merged;
+                scope.spawn(move || {
                 let mut local = BatchStats::default();
                 loop {
                     let i = next.fetch_add(1, Ordering::Relaxed);
                     if i >= total {
+                        *running[wi].lock().unwrap() = None;
                         break;
                     }
                     let seed = run_seed(cfg.seed, i);
+                    *running[wi].lock().unwrap() = Some((i, seed, Instant::now()));
                     let case = sc.case(i, seed, cfg.tier);
                     let out = match std::panic::catch_unwind(std::panic::AssertUnwindSafe(|| sc.execute(&case))) {
                         Ok(o) => o,
@@ -278,8 +304,13 @@ pub fn run_batch<S: Scenario>(sc: &S, cfg: &RunCfg) -> BatchStats {
                         m.groups.insert(k, g);
                     }
                 }
-            });
+                })
+            })
+            .collect();
+        for w in workers {
+            let _ = w.join();
         }
+        done.store(true, Ordering::Relaxed);
     });
 
     let mut m = merged.into_inner().unwrap();
